@@ -451,6 +451,9 @@ class Request(Message):
         # => manually reject one always invalid URI: empty
         if len(self.uri) == 0:
             raise InvalidRequestLine(bytes_to_str(line_bytes))
+        # => and what urlsplit() would silently delete from the URI
+        if any(c in self.uri for c in "\t\r\n"):
+            raise InvalidRequestLine(bytes_to_str(line_bytes))
 
         try:
             parts = split_request_uri(self.uri)
